@@ -17,6 +17,7 @@ type Config struct {
 	MaxDepth   int
 	Kinds      map[string]bool // obligation kinds to generate
 	Modular    bool            // use contracts of callees that have one
+	MaxSteps   int  // basic-block budget of one symbolic run (0 = none)
 	CrossCheck bool // thorough tier: every SMT query goes to all back ends
 	PhaseB     func(fn *ssa.Function) bool
 	InScope    func(fn *ssa.Function) bool // repo function whose body may be inlined
@@ -286,6 +287,10 @@ func (e *Engine) runEntry(init *State) []pathResult {
 		work = work[:len(work)-1]
 		if s.dead {
 			continue
+		}
+		e.steps++
+		if e.cfg.MaxSteps > 0 && e.steps > e.cfg.MaxSteps {
+			e.fail("step budget exceeded (> %d basic blocks): the function is outside what the path executor can enumerate", e.cfg.MaxSteps)
 		}
 		succ, fin := e.stepBlock(s)
 		if fin != nil {
